@@ -48,6 +48,15 @@ CHECKS = {
  "C14": ("model-based property testing over fault histories (scripted connector; connection-state reference model) in virtual time",
          "Histories of connect-fail / connect-succeed / connect-hang / peer-kill faults interleaved with unary and streaming calls at quiescent points, lazy and eager channels, over in-memory pipes to a real tonic server; the per-call result, the number of connector invocations and virtual elapsed times are compared with a two-state connection model; virtual-time watchdog for 'every call resolves'.",
          "Faults are injected only at quiescent points between calls (the property's quantifier). One known finding (connect_timeout surfaces as UNKNOWN) is tolerated by signature.", "4/C14"),
+ "C05": ("property-based testing against an independent negotiation model, plus the enumerated 16x16 (send-set, accept-set) matrix",
+         "Generated server (builder methods / server::Grpc / apply_compression_config) and generated client over a mock transport with every ordered subset of {gzip,deflate,zstd} for send and accept, grpc-accept-encoding from a token grammar (unknown tokens, optional whitespace, case variants, non-ASCII, two lines), all grpc-encoding values, frame flags contradicting headers, really/wrongly compressed and garbage payloads; judged by the harness's own tokeniser/model and magic+decompress judges.",
+         "The server is never required to compress (identity is always permitted); disable_compression judged for unary/client-streaming responses.", "4/C05"),
+ "C09": ("property-based testing (arithmetic oracle in u128 nanoseconds, independent grammar parser), structure-exhaustive enumeration of header shapes, virtual-time enforcement scenarios over the in-memory pipe; coverage-guided fuzzing of the parser in the thorough tier",
+         "(a) Request::set_timeout around every unit switch and at random: conformant value, never longer than requested, loses < 1 unit; (b) the real parser (verif-hooks) on 6 units x 1-8 digits x boundary/leading-zero/random values, named mutations, one-edit mutants and arbitrary bytes vs the grammar; (c) caller timeout (set_timeout / raw header / Endpoint::timeout) x Server::timeout x handler latency on a grid around the shortest deadline in virtual time: CANCELLED 'Timeout expired' at T or the intact result at l.",
+         "Times compared with +-2 ms; l = T ties not generated; durations above 99999999 hours only labelled (set_timeout panics there by design).", "4/C09"),
+ "C15": ("exhaustive enumeration of the finite TLS configuration matrix under generated transport schedules (property-based testing over schedules), real rustls handshakes over the in-memory pipe, independent trust model as oracle",
+         "102 cells (client roots x domain source x server ALPN x assume_http2 x server certificate; https without TLS config; client identity x server client-auth for tonic and raw rustls clients) each under two fixed and further random pipe schedules; the call must succeed iff chain, name, protocol and client-auth conditions hold; otherwise no request reaches a handler/peer and the client never writes plaintext; peer_certs exposed iff verified.",
+         "Fixture PKI (EC, valid 2020-2126) generated with the image's openssl and committed; built as a second binary with tonic/tls-ring so the other checks keep the baseline feature set.", "4/C15"),
 }
 NOT_YET = {}
 def main():
@@ -65,7 +74,7 @@ def main():
         else:
             na.append({"property_id":i,"reason":NOT_YET.get(i,"check not built yet in this session (design in DESIGN.md section 4); will be claimed once its generator and oracle exist")})
     m={"version":1,
-       "setup_cmd":"cd /verif/harness && CARGO_NET_OFFLINE=true cargo build --release --offline --bin vcheck",
+       "setup_cmd":"cd /verif/harness && CARGO_NET_OFFLINE=true cargo build --release --offline --bin vcheck && CARGO_NET_OFFLINE=true cargo build --release --offline --features tls --bin vcheck_tls",
        "hooks":{"guard":"cargo feature `verif-hooks` of crate tonic (off by default)",
                 "enable":"the harness crate depends on /repo/tonic with features [gzip, deflate, zstd, verif-hooks]; ./check rebuilds it from /repo's working tree on every invocation",
                 "baseline_off_cmd":"cd /repo && cargo nextest run --workspace --no-fail-fast --offline || cargo test --workspace --no-fail-fast --offline",
